@@ -165,8 +165,9 @@ def genExtractPatchesWithSlice {α : Type} (pixels : NDArr α) (patchcenters : L
       let halfpixel0 := (Np.halfPixel patchshape)
       let patchcenters0 := (patchcenters + halfpixel0)
       let bounds0 := (Np.roundBounds (Np.cornerGrid patchcenters0 offsets0 corners0))
-      let pixelbounds0 := (Np.clipBounds bounds0 (Np.spatial pixels))
-      let patchbounds0 := (pixelbounds0 - bounds0)
+      let bounds1 := (Np.highFromLow bounds0 patchshape)
+      let pixelbounds0 := (Np.clipBounds bounds1 (Np.spatial pixels))
+      let patchbounds0 := (pixelbounds0 - bounds1)
       let r0 := MenpoModel.Py.forLoop patches0 ((Np.iter (Np.enumerate (List.zip (Np.iter pixelbounds0) (Np.iter patchbounds0))))) (fun acc0 it0 =>
           let patches1 := acc0
           let p1 := it0
@@ -194,8 +195,9 @@ def genExtractPatchesWithSlice {α : Type} (pixels : NDArr α) (patchcenters : L
       let halfpixel0 := (Np.halfPixel patchshape)
       let patchcenters0 := (patchcenters + halfpixel0)
       let bounds0 := (Np.roundBounds (Np.cornerGrid patchcenters0 offsets corners0))
-      let pixelbounds0 := (Np.clipBounds bounds0 (Np.spatial pixels))
-      let patchbounds0 := (pixelbounds0 - bounds0)
+      let bounds1 := (Np.highFromLow bounds0 patchshape)
+      let pixelbounds0 := (Np.clipBounds bounds1 (Np.spatial pixels))
+      let patchbounds0 := (pixelbounds0 - bounds1)
       let r0 := MenpoModel.Py.forLoop patches0 ((Np.iter (Np.enumerate (List.zip (Np.iter pixelbounds0) (Np.iter patchbounds0))))) (fun acc0 it0 =>
           let patches1 := acc0
           let p1 := it0
